@@ -469,12 +469,25 @@ def rule_file_checkers(ctx):
                         bad = True
             # the bytes hashed for an entry are its name, converted without loss
             LOSSLESS = {'file_name', 'as_encoded_bytes', 'deref', 'as_os_str', 'as_bytes', 'as_ref', 'borrow', 'into_encoded_bytes', 'as_slice', 'next', 'branch', 'into_iter', 'read_dir', 'as_path', 'into_os_string',
-                        'to_os_string', 'as_mut_os_str'}
+                        'to_os_string', 'as_mut_os_str',
+                        # collecting / ordering the names first changes no name
+                        'map', 'collect', 'iter', 'iter_mut', 'sort', 'sort_unstable', 'sort_by', 'sort_unstable_by', 'to_owned', 'clone', 'cloned', 'copied', 'to_vec', 'into_vec', 'push', 'extend', 'new',
+                        'with_capacity', 'from_residual', 'from_iter', 'into_boxed_slice', 'index', 'len', 'as_mut_slice'}
             for u in var:
-                anc = ancestors(b, b.orig_operand(u.args[1]), depth=10)
+                anc = ancestors(b, b.orig_operand(u.args[1]), depth=14)
                 names = {x.name for x in anc.values()}
+                # what the closures of `map` / `filter_map` adaptors on the way do to each item
+                for x in list(anc.values()):
+                    if x.qname in ('std::iter::Iterator::map', 'std::iter::Iterator::filter_map', 'std::iter::Iterator::flat_map') and len(x.args) > 1:
+                        for o in b.orig_operand(x.args[1]):
+                            if o.kind == 'aggr':
+                                cb_ = F.bodies.get(b.blocks[o.key[0]]['stmts'][o.key[1]]['rv']['ak'].get('closure'))
+                                if cb_ is not None:
+                                    names |= {c_.name for c_ in cb_.calls.values() if not cb_.blocks[c_.bb]['cleanup']}
                 from_names = 'file_name' in names or 'path' in names
                 lossy = sorted(n_ for n_ in names if n_ not in LOSSLESS)
+                if not from_names:
+                    R.undecided('F5-lossless', b.path, 'the bytes hashed per directory entry cannot be traced back to the entry names (through %s)' % sorted(names)[:12], ctx.where(b, u.bb), props=P)
                 if from_names:
                     R.ob('F5-lossless', b.path, not lossy, 'entry names are hashed through lossless conversions only' if not lossy
                          else 'entry names pass through %s before hashing: distinct names can collapse to the same bytes (e.g. non-UTF-8 names under a lossy conversion)' % lossy, ctx.where(b, u.bb), props=P)
